@@ -6,7 +6,7 @@ from hypothesis import strategies as st
 from reactivex import operators as ops
 
 from vlib.core import FAIL, OK, SKIP, Check, HarnessError
-from vlib.hoc import POLICIES, TSource, all_subs, exact_trace, inner_specs, outer_spec, simulate
+from vlib.hoc import POLICIES, TSource, all_subs, draw_outer, exact_trace, inner_specs, simulate
 from vlib.lab import Lab
 
 PROPERTY_ID = "C12"
@@ -166,7 +166,7 @@ def _run(case):
 def _cases(draw):
     inn = draw(inner_specs(kinds=("cold", "cold", "sync", "hot", "leaky", "cold")))
     form = draw(st.sampled_from(FORMS))
-    return {"form": form, "inners": inn, "t0": draw(st.integers(0, 3)), "outer": draw(outer_spec(len(inn), max_len=5))}
+    return {"form": form, "inners": inn, "t0": draw(st.integers(0, 3)), "outer": draw_outer(draw, len(inn))}
 
 
 def checks(tier):
